@@ -155,6 +155,17 @@ def plan(tier):
         sp_b = sp_v = sp_a
     units.append(fut_unit(0, 'h_fut_int', 'int', KA, fa, sp_a))
     units.append(fut_unit(1, 'h_fut_int_b', 'int', KB, fb, sp_b))
+    # pipeline: the callback awaiter of future #1 resolves promise #2 inside its notification
+    ch = [[mode, outcome, style, len(ks)] + ks for mode in (0, 1) for outcome in ((0, 2) if tier == 'quick' else (0, 1, 2, 3)) for style in (0, 1)
+          for ks in multisets(4, 2 if tier == 'quick' else 3)]
+    if tier == 'quick':
+        ch = [v for i, v in enumerate(ch) if v[3] <= 1 or i % 2 == 0]
+    units.append(dict(engine='e1', name='h_fut_chain', tu='C20.cpp', defines=('C20_PART=0',), entry='h_fut_chain', unwind=7, vectors=dedup(ch),
+                      concrete=pick(ch, (5, 7)), cbmc_extra=FS,
+                      space='two future<int>/promise pairs: the callback awaiter of future #1 resolves promise #2 from inside its notification (suspend point discarded there or handed back), '
+                            'future #2 has 0..%d waiters (heap-frame coroutine, non-heap-frame coroutine, blocking thread, callback) at that moment [mode, outcome of #2, style, n, kinds]%s' %
+                            ((2, '; two-waiter sets: every second combination') if tier == 'quick' else (3, '')),
+                      data='payload and exception tag symbolic', bounds='2 futures, <= 3 waiters', outside='longer pipelines'))
     units.append(fut_unit(2, 'h_fut_void', 'void', KA, fv, sp_v))
     units.append(fut_unit(3, 'h_fut_small', 'small struct', KA, fs, sp_v))
     # ---- mutex
